@@ -358,12 +358,15 @@ Qed.
 Lemma ip_of_src_refines : forall k pc, ip_of_src k pc = ip_of k pc.
 Proof. intros [| |id|v] pc; reflexivity. Qed.
 
+Lemma instr_regs_src_refines : forall ops, instr_regs_src ops = instr_regs ops.
+Proof. reflexivity. Qed.
+
 Theorem analyze_dinstr_src_refines : forall di pc,
   (forall v, get_register pc RSP_ID = Some v -> 0 <= v < two64) ->
   analyze_dinstr_src di pc = analyze_dinstr di pc.
 Proof.
   intros di pc H. unfold analyze_dinstr_src, analyze_dinstr, explicit_accesses.
-  rewrite ip_of_src_refines, implicit_access_src_refines by exact H.
+  rewrite ip_of_src_refines, implicit_access_src_refines, instr_regs_src_refines by exact H.
   replace (map (operand_address_src pc) (di_ops di)) with (map (operand_address pc) (di_ops di)); [reflexivity|].
   apply map_ext. intro m. symmetry. apply operand_address_src_refines.
 Qed.
